@@ -682,6 +682,7 @@ func TestC13_EnumCustomConfig(t *testing.T) {
 			{{P, ";"}}, {{P, ";"}, {P, ";"}}, {{P, "¤"}}, {{S, "::"}}, {{S, "::="}}, {{S, ":"}},
 			{{S, "<!--"}}, {{S, "<"}, {S, "!"}}, {{S, "<"}, {S, "!"}, {S, "-"}, {W, "b"}}, {{S, "=:~=:~"}}, {{S, "=:~"}, {S, "="}, {S, ":"}, {B, " "}}},
 		"expression+dis": {{{W, "x"}}, {{S, "。"}}, {{W, "y1"}}, {{S, "+"}}, {{I, "1"}}, {{B, " "}}, {{W, "é中"}}, {{S, "<="}}},
+		"expression+arrow": {{{W, "x"}}, {{S, "->"}}, {{S, "-"}}, {{S, "-="}}, {{S, "--"}}, {{I, "1"}}, {{B, " "}}, {{S, "+="}}, {{S, "=>"}}, {{S, "+"}}, {{S, ">"}}},
 		"expression+greek": {{{W, "Σx"}}, {{W, "αΣ"}}, {{S, "+"}}, {{W, "a"}}, {{I, "1"}}, {{B, " "}}, {{W, "Σ"}}, {{S, "<="}}},
 	}
 	for cfg, ps := range pieces {
@@ -704,7 +705,7 @@ func TestC13_EnumCustomConfig(t *testing.T) {
 			if a.T == b.T && (a.T == W || a.T == I || a.T == B) {
 				ok = false
 			}
-			if a.T == W && cc.cfg != "expression+dis" && cc.cfg != "expression+greek" && strings.HasPrefix(b.V, "-") {
+			if a.T == W && !strings.HasPrefix(cc.cfg, "expression+") && strings.HasPrefix(b.V, "-") {
 				ok = false // '-' continues a generic word
 			}
 			if (a.T == W && b.T == I) || (a.T == I && b.T == S && strings.HasPrefix(b.V, ".")) || (a.T == S && a.V == "." && b.T == I) {
@@ -721,6 +722,8 @@ func TestC13_EnumCustomConfig(t *testing.T) {
 			registered[";"], registered["¤"] = P, P
 		case "expression+dis", "expression+greek":
 			registered = map[string]int{"<=": S, ">=": S, "<>": S, "!=": S, ">>": S, "<<": S}
+		case "expression+arrow":
+			registered = map[string]int{"<=": S, ">=": S, "<>": S, "!=": S, ">>": S, "<<": S, "->": S, "-=": S, "--": S, "+=": S, "=>": S}
 		}
 		rest := []rune(joinLexemes(cc.ls))
 		for _, l := range cc.ls {
@@ -744,7 +747,7 @@ func TestC13_EnumCustomConfig(t *testing.T) {
 			}
 		}
 	}
-	requireLabels(t, rec, "cfg:generic+ws", "cfg:generic+sym", "cfg:expression+dis", "cfg:expression+greek")
+	requireLabels(t, rec, "cfg:generic+ws", "cfg:generic+sym", "cfg:expression+dis", "cfg:expression+greek", "cfg:expression+arrow")
 }
 
 func checkC13Custom(c c13Case) *evid.Fail {
